@@ -81,7 +81,10 @@ def _normalize_parsed_items(
         else:
             if isinstance(measure.value, int):
                 scale = field_scaling.get(measure.obis, None)
-                if scale:
+                if scale and scale < 0:
+                    # divide to get the correctly rounded value (57 * 10**-2 is 0.5700000000000001)
+                    dictionary[element_name] = measure.value / (10**-scale)
+                elif scale:
                     dictionary[element_name] = measure.value * (10**scale)
                 else:
                     dictionary[element_name] = measure.value
